@@ -76,7 +76,14 @@ def gen_ordinal(rng, n, pnan):
     nlev = rng.randint(2, 6)
     lv = [rng.randrange(nlev) for _ in range(n)]
     order = LETTERS[:nlev]
-    style = rng.choice(['plain', 'plain', 'never', 'reversed', 'numstr'])
+    style = rng.choice(['plain', 'plain', 'never', 'reversed', 'numstr', 'numcode'])
+    if style == 'numcode':
+        # numeric codes (held as numbers in the data) ranked in an arbitrary, non-sorted order
+        codes = list(range(nlev))
+        rng.shuffle(codes)
+        order = [str(c) for c in codes]
+        vals = [None if rng.random() < pnan else codes[x] for x in lv]
+        return vals, lv, order
     if style == 'numstr':
         order = [str(i + 1) for i in range(nlev)]
     if style == 'reversed':
@@ -494,7 +501,7 @@ def _random_edits(rng, h, idx, X, n_edits=2):
 def hist_c17(seed, cls=None):
     rng = random.Random(seed)
     spec = random_object_spec(rng, cls or rng.choice(['BinaryCarver', 'BinaryCarver', 'ContinuousCarver', 'Discretizer',
-                                                      'QualitativeDiscretizer', 'QuantitativeDiscretizer']))
+                                                      'QualitativeDiscretizer', 'QuantitativeDiscretizer', 'MulticlassCarver']))
     o, X, y, kw = E.build(spec)
     h = _new('c17', seed, spec)
     if not h.fit(1, o, X, y, kw):
@@ -567,7 +574,7 @@ def _bad_call(rng, kind, spec, h, idx, fitted):
             return None
         Xb = X.copy()
         col = list(Xb[q[0]])
-        col[pos] = 'oops'
+        col[pos] = rng.choice(['oops', '3.5', '1e3', ' 12 ', '-7', 'inf'])      # free text and number-looking strings alike
         Xb[q[0]] = pd.Series(col, dtype=object)
         return fit_with(Xb, y)
     if kind == 'value_not_in_order':
@@ -628,7 +635,8 @@ def _bad_call(rng, kind, spec, h, idx, fitted):
             if kind == 'bad_sort_by':
                 if spec['cls'] == 'ContinuousCarver':
                     return carvers.ContinuousCarver(min_freq=0.1, quantitative_features=quanti, qualitative_features=categ, sort_by='cramerv')
-                return getattr(carvers, spec['cls'])(sort_by='kruskal', min_freq=0.1, quantitative_features=quanti, qualitative_features=categ)
+                bad = rng.choice(['kruskal', 'Tschuprowt', 'CramerV', 'Cramerv', 'chi2', 'TSCHUPROWT'])
+                return getattr(carvers, spec['cls'])(sort_by=bad, min_freq=0.1, quantitative_features=quanti, qualitative_features=categ)
             both = names[0]
             kwc = dict(min_freq=0.1, quantitative_features=list(set(quanti + [both])), qualitative_features=list(set(categ + [both])))
             if spec['cls'] == 'ContinuousCarver':
